@@ -109,6 +109,7 @@ func init() {
 		Units: []Unit{
 			{Name: "exhaustive", QShards: 2, TShards: 8, Run: c13Exhaustive},
 			{Name: "packed", Run: c13Packed},
+			{Name: "gigantic", Run: c13Gigantic},
 			{Name: "random", TShards: 2, Run: c13Random},
 			{Name: "bytes", Run: c13Bytes},
 			{Name: "longcontext", QShards: 8, TShards: 12, Run: func(c *Ctx) {
@@ -116,6 +117,8 @@ func init() {
 					"DNATo2Bit": func(s []byte) { sequtil.DNATo2Bit(nil, s) },
 					// a destination with room for the whole result (the usual reused buffer): another path, the same contract
 					"DNATo2Bit (dst with spare capacity)": func(s []byte) { sequtil.DNATo2Bit(make([]byte, 3, 8+len(s)), s) }})
+				periodicPanics(c, "ACGTacgt", []byte{'N', 'u', 0x80, 0},
+					map[string]func([]byte){"DNATo2Bit": func(s []byte) { sequtil.DNATo2Bit(nil, s) }, "DNATo2Bit (dst with spare capacity)": func(s []byte) { sequtil.DNATo2Bit(make([]byte, 3, 8+len(s)), s) }})
 			}},
 			{Name: "readers", Race: true, QShards: 2, TShards: 4, Run: c13Readers},
 			{Name: "parallel", Race: true, Run: sequtilParallel("pack")},
@@ -145,6 +148,9 @@ func init() {
 						sequtil.Translate(make([]byte, 2, 8+len(s)), append(append([]byte{}, s...), "AA"[:(3-len(s)%3)%3]...))
 					},
 					"TranslateReadingFrames": func(s []byte) { sequtil.TranslateReadingFrames(s) }})
+				periodicPanics(c, "ACGTacgt", []byte{'N', 'U', 0x80, 0}, map[string]func([]byte){
+					"Translate":                           func(s []byte) { sequtil.Translate(nil, s[:len(s)/3*3]) },
+					"Translate (dst with spare capacity)": func(s []byte) { sequtil.Translate(make([]byte, 2, 8+len(s)), s[:len(s)/3*3]) }})
 			}},
 			{Name: "parallel", Race: true, Run: sequtilParallel("translate")},
 			firstCallUnit(firstSequtilAmino),
@@ -1000,4 +1006,115 @@ func longContextPanics(c *Ctx, idx0 int64, valid string, invalid []byte, calls m
 		idx++
 	}
 	return idx
+}
+
+// c13Gigantic: ONE call beyond 2^25 packed bytes (2^27 bases, a mid-sized
+// chromosome): the result is larger than 128 MiB, past any cap an
+// implementation may put on what it reserves at once. Checked group by group
+// against the 2-bit definition, and packed back.
+func c13Gigantic(c *Ctx) {
+	sizes := []int{1<<25 + 1, 1<<25 + 5000} // (past 128 MiB of output by a few bytes, and by more than any allocator rounding)
+	if c.Thorough {
+		sizes = append(sizes, 1<<26+3)
+	}
+	for i, n := range sizes {
+		c.Case(int64(i), func(k *K) {
+			r := k.Rand()
+			p := make([]byte, n)
+			for j := 0; j < n; j += 8 {
+				v := r.Uint64()
+				for b := 0; b < 8 && j+b < n; b++ {
+					p[j+b] = byte(v >> (8 * b))
+				}
+			}
+			k.Input("packed_bytes", n)
+			var dst []byte
+			if i%2 == 1 {
+				dst = []byte("pre")
+			}
+			un := sequtil.DNAFrom2Bit(dst, p)
+			un = append([]byte("pre"), un[len(dst):]...)
+			if len(un) != 3+4*n || string(un[:3]) != "pre" {
+				k.Failf("unpack", "DNAFrom2Bit(\"pre\", %d packed bytes) returns %d bytes, want 3 + %d", n, len(un), 4*n)
+				return
+			}
+			for j := 0; j < n; j++ {
+				b := p[j]
+				g := un[3+4*j : 3+4*j+4]
+				if g[0] != "ACGT"[b>>6] || g[1] != "ACGT"[b>>4&3] || g[2] != "ACGT"[b>>2&3] || g[3] != "ACGT"[b&3] {
+					k.Failf("unpack", "DNAFrom2Bit of %d packed bytes: byte %d = %#x unpacks to %q", n, j, b, g)
+					return
+				}
+			}
+			back := sequtil.DNATo2Bit(nil, un[3:])
+			if !bytes.Equal(back, p) {
+				k.Failf("unpack-pack", "DNATo2Bit(DNAFrom2Bit(p)) differs from p for %d packed bytes (first difference at byte %d)", n, firstDiff(back, p))
+				return
+			}
+			k.Count("gigantic_roundtrips", 1)
+			k.Count("unpack_pack_checked", 1)
+			k.Nontrivial([]byte(fmt.Sprint("gigantic", n)))
+		})
+	}
+}
+
+// periodicPanics: invalid bytes placed PERIODICALLY — at every position that is
+// o modulo p (p = 1 … 64, every offset for p <= 8) — over the whole sequence or
+// over a block of 2040 … 4104 bytes at an aligned or unaligned start, in an
+// otherwise valid sequence of a few thousand bases. A validity scan that works
+// on machine words, lanes or packed counters adds such bytes up lane by lane,
+// and a lane that overflows or cancels loses them; one bad byte is enough for a
+// panic, thousands of them in step must be, too.
+func periodicPanics(c *Ctx, valid string, invalid []byte, calls map[string]func(s []byte)) {
+	idx := int64(1 << 20)
+	for _, p := range []int{1, 2, 3, 4, 5, 6, 7, 8, 16, 24, 32, 64} {
+		offs := []int{0, 1, p - 1, p / 2}
+		if p <= 8 {
+			offs = offs[:0]
+			for o := 0; o < p; o++ {
+				offs = append(offs, o)
+			}
+		}
+		for _, o := range offs {
+			if o < 0 || o >= p {
+				continue
+			}
+			c.Case(idx, func(k *K) {
+				r := k.Rand()
+				for _, total := range []int{2049, 2052, 4098, 6150, 8193 + 3*r.IntN(50)} {
+					for _, span := range [][2]int{{0, total}, {0, 2048}, {0, 2040}, {2048, 4096}, {8, 2056}, {3, 2051}, {total - 2048, total}} {
+						if span[1] > total || span[0] < 0 {
+							continue
+						}
+						s := randSeq(r, []byte(valid), total)
+						b := invalid[(p+o)%len(invalid)]
+						n := 0
+						for q := span[0]; q < span[1]; q++ {
+							if q%p == o {
+								s[q] = b
+								n++
+							}
+						}
+						if n == 0 {
+							continue
+						}
+						for name, call := range calls {
+							if !expectPanic(func() { call(s) }) {
+								k.Input("length", total)
+								k.Input("period", p)
+								k.Input("offset", o)
+								k.Input("span", fmt.Sprint(span))
+								k.Failf("missing-panic", "%s: %d copies of byte %q, at every position that is %d modulo %d within [%d, %d) of an otherwise valid sequence of %d bases, did not cause a panic", name, n, b, o, p, span[0], span[1], total)
+								return
+							}
+						}
+						k.Count("periodic_invalid_patterns", 1)
+						k.Evals(1)
+					}
+				}
+				k.Nontrivial([]byte(fmt.Sprint("periodic", p, o, valid)))
+			})
+			idx++
+		}
+	}
 }
